@@ -572,6 +572,22 @@ TARGETS = [
     dict(name="indexedStoreKeySize", group="Dir", file="src/creator/directory_pack/value_store.rs", fn="key_size", after=r"impl IndexedValueStore",
          cfg=dict(params=[("count", N)], ret=N, exprs={"self.0.sorted_indirect.len()": "count"},
                   funcs={"needed_bytes": "((Generated.neededBytes {0}).getD 0)"})),
+    # ---- the CRC check of a block
+    dict(name="assertSliceCrc", group="Check", file="src/bases/block.rs", fn="assert_slice_crc",
+         cfg=dict(params=[("crc", "List UInt8 → Nat"), ("beNat", "List UInt8 → Nat"), ("buf", "List UInt8")], ret="Unit", outcome=True, stateful=False,
+                  err_kind=".corrupted",
+                  exprs={"buf.len()": "buf.length", "buf[..data_size]": "(buf.take data_size)", "buf[data_size..]": "(buf.drop data_size)",
+                         "CRC.digest()": "()", "digest.finalize()": "(crc slice)", "checksum.to_be_bytes()": "()"},
+                  ignore_stmts=["digest.update("], funcs={"BE::read_u32": "(beNat {0})"})),
+    # ---- the statements of EntryStore::sort: every sort pass is followed by a renumbering
+    dict(name="entryStoreSortShape", group="Refs", file="src/creator/directory_pack/entry_store.rs", fn="sort", after=r"impl<PN, VN, Entry> EntryStoreTrait for EntryStore", cfg={},
+         occurrences=dict(type="SortStmt", forbid=r"set_idx\(|\.swap\(|\.reverse\(|\.sort\(|sort_by_key|sort_unstable\(|\.retain\(|\.dedup",
+                          rules=[(r"set_entry_idx\(&mut self\.entries\)", "setIdx"),
+                                 (r"self\.entries\.par_sort_unstable_by\(compare\)", "sort")])),
+    dict(name="directoryFinalizePhases", group="Refs", file="src/creator/directory_pack/directory_pack.rs", fn="finalize", after=r"impl DirectoryPackCreator", cfg={},
+         occurrences=dict(type="MPhase", forbid=r"\be\.sort\(\)|\.sort\(\)[^;{}]*\.finalize\(\)|\.map\(\|[^|]*\|\s*\{[^}]*sort",
+                          rules=[(r"for entry_store in &mut self\.entry_stores \{\s*entry_store\.sort\(\);\s*\}", "sortAll"),
+                                 (r"\.into_iter\(\)\s*\.map\(\|e\| e\.finalize\(\)\)\s*\.collect\(\)", "sizeAll")])),
 ]
 
 
@@ -770,7 +786,7 @@ def apply_enums(t):
     return "\n".join(decls)
 
 
-GROUP_IMPORTS = {"Open": ["JubakoModel.Model.Container", "JubakoModel.Generated.FuncsParse"], "Parse": ["JubakoModel.Model.DirLayout", "JubakoModel.Generated.FuncsBytes"], "Entry": ["JubakoModel.Generated.FuncsBytes", "JubakoModel.Generated.FuncsDir"], "Stats": ["JubakoModel.Generated.FuncsBytes", "JubakoModel.Generated.FuncsDir"], "Lookup": ["JubakoModel.Model.Bytes"], "Fs": ["JubakoModel.Model.BasicCreatorFs"], "Sync": ["JubakoModel.Model.SyncVec"], "Pipe": ["JubakoModel.Model.Pipeline"], "Proto": ["JubakoModel.Model.FileCursor"], "Search": ["JubakoModel.Generated.FuncsBytes"], "Content": ["JubakoModel.Generated.FuncsBytes"], "Dir": ["JubakoModel.Generated.FuncsBytes", "JubakoModel.Model.Bytes"]}
+GROUP_IMPORTS = {"Refs": ["JubakoModel.Model.Refs", "JubakoModel.Model.MultiStore"], "Check": ["JubakoModel.Model.Bytes"], "Open": ["JubakoModel.Model.Container", "JubakoModel.Generated.FuncsParse"], "Parse": ["JubakoModel.Model.DirLayout", "JubakoModel.Generated.FuncsBytes"], "Entry": ["JubakoModel.Generated.FuncsBytes", "JubakoModel.Generated.FuncsDir"], "Stats": ["JubakoModel.Generated.FuncsBytes", "JubakoModel.Generated.FuncsDir"], "Lookup": ["JubakoModel.Model.Bytes"], "Fs": ["JubakoModel.Model.BasicCreatorFs"], "Sync": ["JubakoModel.Model.SyncVec"], "Pipe": ["JubakoModel.Model.Pipeline"], "Proto": ["JubakoModel.Model.FileCursor"], "Search": ["JubakoModel.Generated.FuncsBytes"], "Content": ["JubakoModel.Generated.FuncsBytes"], "Dir": ["JubakoModel.Generated.FuncsBytes", "JubakoModel.Model.Bytes"]}
 GROUP_PREAMBLE = {"Parse": """/- semantics of the effects of the parsing code (trusted, DESIGN.md §12.7): `unwrap()` of an `Err` / `None` is a
    panic; `read_isized(n)` reads `n` bytes little-endian and sign-extends (`LE::read_int`) -/
 def unwrapped {α : Type} : Outcome α → Outcome α
@@ -788,7 +804,7 @@ def entryLEs (e : Bytes) (off n : Nat) : Outcome Int :=
   (entryLE e off n).bind fun v => .ok (signExtend v n)
 
 """}
-GROUP_ORDER = ["Bytes", "Content", "Dir", "Order", "Search", "View", "Check", "Proto", "Pipe", "Sync", "Fs", "Lookup", "Stats", "Entry", "Parse", "Open"]
+GROUP_ORDER = ["Bytes", "Content", "Dir", "Order", "Search", "View", "Check", "Proto", "Pipe", "Sync", "Fs", "Lookup", "Stats", "Entry", "Parse", "Open", "Refs"]
 
 
 def main():
